@@ -131,3 +131,166 @@ Proof.
     cbn [pop_while]. unfold poppable in Hf. rewrite Hf. rewrite pop_op_frame.
     rewrite IH by assumption. reflexivity.
 Qed.
+
+(* ================================================================================================ *)
+(* 3. chains: one bracket level *)
+Inductive ctree :=
+| CAtom (toks : list token) (t : ptree)       (* an operand: its tokens and the tree it is read as *)
+| CBin (o : binop) (l r : ctree).             (* an operator written without brackets around it *)
+
+Fixpoint ctoks (c : ctree) : list token :=
+  match c with
+  | CAtom toks _ => toks
+  | CBin o l r => ctoks l ++ TP (binop_text o) :: ctoks r
+  end.
+Fixpoint ctree_tree (c : ctree) : ptree :=
+  match c with
+  | CAtom _ t => t
+  | CBin o l r => PInfix (binop_text o) (ctree_tree l) (ctree_tree r)
+  end.
+Fixpoint citers (c : ctree) : nat :=
+  match c with CAtom _ _ => O | CBin _ l r => citers l + S (citers r) end.
+
+Definition root_le (p : nat) (c : ctree) : bool :=
+  match c with CAtom _ _ => true | CBin o _ _ => Nat.leb (cprec o) p end.
+Definition root_lt (p : nat) (c : ctree) : bool :=
+  match c with CAtom _ _ => true | CBin o _ _ => Nat.ltb (cprec o) p end.
+(* minimal brackets: an unbracketed left operand is at most as loose as its parent, a right one strictly tighter *)
+Fixpoint cwf (c : ctree) : bool :=
+  match c with
+  | CAtom _ _ => true
+  | CBin o l r => root_le (cprec o) l && root_lt (cprec o) r && cwf l && cwf r
+  end.
+
+(* the right spine of a chain as frames *)
+Fixpoint rframes (c : ctree) : list frame :=
+  match c with
+  | CAtom _ _ => []
+  | CBin o l r => rframes r ++ [FInfix (ctree_tree l) o]
+  end.
+Fixpoint rtop (c : ctree) : ptree :=
+  match c with CAtom _ t => t | CBin _ _ r => rtop r end.
+
+Lemma plug_rframes c : plug (rframes c) (rtop c) = ctree_tree c.
+Proof.
+  induction c as [toks t|o l IHl r IHr]; [reflexivity|].
+  cbn [rframes rtop ctree_tree]. rewrite plug_app, IHr. reflexivity.
+Qed.
+
+Lemma root_lt_le p c : root_lt p c = true -> root_le p c = true.
+Proof. destruct c; simpl; [auto|]. intros H. apply Nat.ltb_lt in H. apply Nat.leb_le. lia. Qed.
+
+Lemma root_le_trans p q c : root_le p c = true -> (p <= q)%nat -> root_le q c = true.
+Proof. destruct c; simpl; [auto|]. intros H Hpq. apply Nat.leb_le in H. apply Nat.leb_le. lia. Qed.
+
+Lemma rframes_poppable o c : cwf c = true -> root_le (cprec o) c = true ->
+  forallb (poppable o) (rframes c) = true.
+Proof.
+  induction c as [toks t|o' l IHl r IHr]; intros Hwf Hroot; [reflexivity|].
+  cbn [rframes]. rewrite forallb_app. cbn [cwf] in Hwf.
+  apply andb_true_iff in Hwf. destruct Hwf as [Hwf Hwr].
+  apply andb_true_iff in Hwf. destruct Hwf as [Hwf Hwl].
+  apply andb_true_iff in Hwf. destruct Hwf as [Hl Hr].
+  simpl in Hroot. apply Nat.leb_le in Hroot.
+  rewrite IHr; [|exact Hwr|apply (root_le_trans (cprec o')); [apply root_lt_le; exact Hr|exact Hroot]].
+  simpl. unfold poppable. simpl. rewrite should_pop_infix.
+  replace (Nat.leb (cprec o') (cprec o)) with true by (symmetry; apply Nat.leb_le; exact Hroot).
+  reflexivity.
+Qed.
+
+Section Loop.
+Variable atom : list ascii -> list token -> pres (ptree * list token).
+Variable terms : list ascii.
+
+(* what may stand right after an operand: not '(' (a call), and a ':' only as a closing character *)
+Definition follows_ok (rest : list token) : bool :=
+  match rest with
+  | TP s :: _ => negb (String.eqb s "(") && (negb (String.eqb s ":") || terminated terms ":")
+  | _ => true
+  end.
+
+Definition atom_good (toks : list token) (t : ptree) : Prop :=
+  postfix_follow toks = false /\
+  forall rest, follows_ok rest = true -> atom terms (toks ++ rest) = POk (t, rest).
+
+Fixpoint atoms_good (c : ctree) : Prop :=
+  match c with
+  | CAtom toks t => atom_good toks t
+  | CBin _ l r => atoms_good l /\ atoms_good r
+  end.
+
+(* no operator of the chain begins with a closing character of an enclosing ^x...x *)
+Fixpoint cclear (c : ctree) : bool :=
+  match c with
+  | CAtom _ _ => true
+  | CBin o l r => negb (terminated terms (binop_text o)) && cclear l && cclear r
+  end.
+
+Lemma postfix_follow_app toks rest : postfix_follow toks = false -> postfix_follow (toks ++ rest) = false.
+Proof. destruct toks as [|t toks]; simpl; [discriminate|]. auto. Qed.
+
+Lemma follows_ok_op o rest : follows_ok (TP (binop_text o) :: rest) = true.
+Proof. destruct o; reflexivity. Qed.
+
+(* one round of the loop on "o <operand>" *)
+Lemma loop_step m o ops stack toks t rest :
+  terminated terms (binop_text o) = false ->
+  atom_good toks t -> follows_ok rest = true ->
+  infix_loop atom (S m) terms ops stack (TP (binop_text o) :: toks ++ rest)
+  = match pop_while (irow o) ops stack with
+    | POk (ops', stack') => infix_loop atom m terms (irow o :: ops') (t :: stack') rest
+    | PNo => PNo | PCrit id => PCrit id | PCrash c => PCrash c | PFuel => PFuel
+    end.
+Proof.
+  intros Hterm [Hpf Hatom] Hfol. cbn [infix_loop]. rewrite Hterm.
+  rewrite (postfix_follow_app toks rest Hpf).
+  rewrite lookup_irow. rewrite (Hatom rest Hfol).
+  destruct (lookup_op KPostfix (binop_text o)); reflexivity.
+Qed.
+
+(* reading "o r" where r is a whole right operand: everything at least as tight as o is popped,
+   then r's right spine is stacked on top *)
+Lemma right_operand : forall r o fs1 fs2 t m rest,
+  cwf r = true -> root_lt (cprec o) r = true -> cclear r = true -> atoms_good r ->
+  terminated terms (binop_text o) = false ->
+  forallb (poppable o) fs1 = true ->
+  match fs2 with [] => true | f :: _ => negb (poppable o f) end = true ->
+  follows_ok rest = true ->
+  infix_loop atom (S (citers r) + m) terms (ops_of (fs1 ++ fs2)) (stack_of (fs1 ++ fs2) t)
+             (TP (binop_text o) :: ctoks r ++ rest)
+  = infix_loop atom m terms
+      (ops_of (rframes r ++ FInfix (plug fs1 t) o :: fs2))
+      (stack_of (rframes r ++ FInfix (plug fs1 t) o :: fs2) (rtop r)) rest.
+Proof.
+  induction r as [toks ta|o' l IHl r' IHr]; intros o fs1 fs2 t m rest Hwf Hroot Hclear Hgood Hterm Hp1 Hp2 Hfol.
+  - cbn [citers ctoks rframes rtop plus app].
+    rewrite (loop_step m o _ _ toks ta rest Hterm Hgood Hfol).
+    rewrite (pop_while_frames o fs1 fs2 t Hp1 Hp2). reflexivity.
+  - cbn [cwf] in Hwf.
+    apply andb_true_iff in Hwf. destruct Hwf as [Hwf Hwr].
+    apply andb_true_iff in Hwf. destruct Hwf as [Hwf Hwl].
+    apply andb_true_iff in Hwf. destruct Hwf as [Hl Hr].
+    cbn [cclear] in Hclear.
+    apply andb_true_iff in Hclear. destruct Hclear as [Hclear Hcr].
+    apply andb_true_iff in Hclear. destruct Hclear as [Hco Hcl].
+    apply negb_true_iff in Hco.
+    destruct Hgood as [Hgl Hgr].
+    simpl in Hroot. apply Nat.ltb_lt in Hroot.
+    cbn [citers ctoks rframes rtop].
+    replace (S (citers l + S (citers r')) + m)%nat with (S (citers l) + (S (citers r') + m))%nat by lia.
+    rewrite <- app_assoc. cbn [app].
+    rewrite (IHl o fs1 fs2 t (S (citers r') + m)%nat (TP (binop_text o') :: ctoks r' ++ rest)); try assumption.
+    + (* now "o' r'" on top of l's right spine *)
+      rewrite <- (app_nil_r (rframes l)) at 1 2.
+      rewrite <- app_assoc. cbn [app].
+      rewrite (IHr o' (rframes l) (FInfix (plug fs1 t) o :: fs2) (rtop l) m rest); try assumption.
+      * rewrite plug_rframes. rewrite <- !app_assoc. reflexivity.
+      * apply rframes_poppable; assumption.
+      * cbn [negb poppable frame_row]. unfold poppable. cbn [frame_row]. rewrite should_pop_infix.
+        apply negb_true_iff. apply Nat.leb_gt. exact Hroot.
+    + (* l fits under o *)
+      destruct l as [|ol ll lr]; [reflexivity|]. simpl in Hl |- *.
+      apply Nat.leb_le in Hl. apply Nat.ltb_lt. lia.
+    + apply follows_ok_op.
+Qed.
+End Loop.
